@@ -80,6 +80,50 @@ fn same_day_batch(rng: &mut Rng, who: usize, rounds: usize) {
     }
 }
 
+/// A writer that, in its first write call, waits until all `n` threads are inside their
+/// writers: n serializations are in flight at the same moment, as with a thread per
+/// connection streaming to slow clients.
+struct GateWriter<'a> {
+    buf: Vec<u8>,
+    gate: &'a std::sync::Barrier,
+    waited: bool,
+}
+
+impl<'a> std::io::Write for GateWriter<'a> {
+    fn write(&mut self, b: &[u8]) -> std::io::Result<usize> {
+        if !self.waited {
+            self.waited = true;
+            self.gate.wait();
+        }
+        // a byte at a time, so that the serializer comes back for more while the others are still writing
+        let n = b.len().min(3);
+        self.buf.extend_from_slice(&b[..n]);
+        std::thread::yield_now();
+        Ok(n)
+    }
+    fn flush(&mut self) -> std::io::Result<()> {
+        Ok(())
+    }
+}
+
+fn all_in_flight(workload: u64, n: usize) {
+    let gate = std::sync::Barrier::new(n);
+    std::thread::scope(|s| {
+        for who in 0..n {
+            let gate = &gate;
+            s.spawn(move || {
+                let mut rng = Rng::for_run(workload, 0xF11, who as u64);
+                let ts = Timestamp::try_from_usecs(rng.range_i64(-62_135_596_800_000_000, 253_402_300_799_999_999)).unwrap();
+                let d = Date::try_from_days(rng.range_i64(-719_162, 2_932_896) as i32).unwrap();
+                let mut w = GateWriter { buf: Vec::new(), gate, waited: false };
+                serde_json::to_writer(&mut w, &(ts, d)).expect("serializing into a healthy writer");
+                let back: (Timestamp, Date) = serde_json::from_slice(&w.buf).unwrap_or_else(|e| panic!("thread {who}: {} does not decode: {e}", String::from_utf8_lossy(&w.buf)));
+                assert_eq!(back, (ts, d), "thread {who}: wrote {} while {n} serializations were in flight", String::from_utf8_lossy(&w.buf));
+            });
+        }
+    });
+}
+
 fn main() {
     let args: Vec<String> = std::env::args().collect();
     let workload: u64 = args.get(1).and_then(|s| s.parse().ok()).unwrap_or(1);
@@ -101,4 +145,6 @@ fn main() {
     for h in handles {
         h.join().expect("a round trip failed on some thread");
     }
+    // many serializations in flight at once
+    all_in_flight(workload, 20);
 }
